@@ -1,7 +1,7 @@
 (* PkgInstproof.v — the concrete instance meets the hypotheses; example states; refutations on the pinned model *)
 From Coq Require Import List ZArith Bool Arith Lia.
 Import ListNotations.
-Require Import Package PkgManproof Pkgproof.
+Require Import Package PkgManproof Pkgproof PkgStepWF PkgStepWF4 PkgOKstep3 PkgOKstep5 PkgInitproof.
 Open Scope Z_scope.
 
 Lemma cpar_cser : forall x, cpar (cser x) = x. Proof. reflexivity. Qed.
@@ -50,3 +50,36 @@ Lemma f34_refuted : exists fs d n b,
   /\ let s2 := fst (cstep FIXED (fs, d) (OSetPart n b)) in
      cview (fst s2) (snd (fst (cstep FIXED s2 (OTouch n)))) n = cview (fst s2) (snd s2) n.
 Proof. exists ex_fs_dir, ex_doc_dir, CONTENT, (CS (CX 60 61 [] [30])). split; [vm_compute; discriminate|reflexivity]. Qed.
+
+(* ---------- the concrete instance meets the hypotheses of the history theorems ---------- *)
+Lemma centries_with : forall es x, centries (cwith_entries es x) = es. Proof. intros es [s l e k]. reflexivity. Qed.
+Lemma centries_pretty : forall x, centries (cpretty x) = centries x. Proof. intros [s l e k]. reflexivity. Qed.
+Lemma cmime_bytes_ok : forall m, cmime (cmime_bytes m) = m. Proof. reflexivity. Qed.
+
+(* the four templates of odfdo (src/odfdo/templates: text.ott, spreadsheet.ots, presentation.otp, drawing.otg) as abstracted by the
+   harness on the pinned sources (directory entries omitted; 1000 = Configurations2/accelerator/current.xml, 1001 =
+   Thumbnails/thumbnail.png, -3 = Configurations2/): a file system of coherent packages *)
+Definition tmpl_fs : cfs :=
+[(1, FZip [(0,true,CB 2);(3,false,CS (CX 3 4 [] [5]));(4,false,CS (CX 6 7 [] [8]));(1000,true,CB 0);(6,false,CB 9);(5,false,CS (CX 10 11 [] [12;13;14;15]));(2,false,CS (CX 16 17 [] [18;12;19;20]));(1001,true,CB 21);(1,false,CS (CX 0 0 [((-1),2);(3,22);(4,22);(1000,0);((-3),23);(6,24);(5,22);(2,22);(1001,25)] []))]);
+ (2, FZip [(0,true,CB 26);(3,false,CS (CX 27 28 [] [29]));(5,false,CS (CX 30 31 [] [32;33;34;35]));(1000,false,CB 0);(6,false,CB 1);(2,false,CS (CX 36 37 [] [18;32;38;39]));(4,false,CS (CX 40 41 [] [42]));(1001,true,CB 43);(1,false,CS (CX 0 0 [((-1),26);(3,22);(5,22);(1000,0);((-3),23);(6,24);(2,22);(4,22);(1001,25)] []))]);
+ (3, FZip [(0,true,CB 44);(1000,false,CB 0);(5,false,CS (CX 45 46 [] [47;48;49;50]));(2,false,CS (CX 51 52 [] [18;47;53;54]));(4,false,CS (CX 55 56 [] [57]));(3,false,CS (CX 58 59 [] [60]));(1001,true,CB 61);(1,false,CS (CX 0 0 [((-1),44);(1000,0);((-3),23);(5,22);(2,22);(4,22);(3,22);(1001,25)] []))]);
+ (4, FZip [(0,true,CB 62);(1000,false,CB 0);(5,false,CS (CX 63 64 [] [65;66;67;68]));(2,false,CS (CX 69 70 [] [18;65;71;72]));(4,false,CS (CX 73 74 [] [75]));(3,false,CS (CX 76 77 [] [78]));(1001,true,CB 21);(1,false,CS (CX 0 0 [((-1),62);(1000,0);((-3),23);(5,22);(2,22);(4,22);(3,22);(1001,25)] []))])].
+
+Lemma tmpl_fs_ok : FsOK cbytes Z tmpl_fs /\ AllGood cxml cbytes Z cpar centries cmime tmpl_fs.
+Proof. split; [apply FsOKb_sound|apply AllGoodb_sound]; vm_compute; reflexivity. Qed.
+
+(* Document("text"), Document("spreadsheet"), Document("presentation"), Document("drawing") and Document(path) succeed on it *)
+Lemma tmpl_starts : forall p, In p [1; 2; 3; 4] ->
+  snd (cstep FIXED (tmpl_fs, mkD (mkC [] [] None PZip) []) (ONew p 99)) = Done
+  /\ snd (cstep FIXED (tmpl_fs, mkD (mkC [] [] None PZip) []) (OOpen p false)) = Done.
+Proof. intros p H. cbn in H. repeat (destruct H as [<-|H]; [split; vm_compute; reflexivity|]). destruct H. Qed.
+
+Lemma ex_fs_ok : FsOK cbytes Z ex_fs.
+Proof. apply FsOKb_sound. vm_compute. reflexivity. Qed.
+
+(* F42: Document("text"); manifest.add_full_path("manifest.rdf") (media type ""); save *)
+Definition f42_state : cfs * cdoc := fst (cstep FIXED (tmpl_fs, mkD (mkC [] [] None PZip) []) (ONew 1 99)).
+Lemma f42_refuted : exists (s : cfs * cdoc) (o1 o2 : cop),
+  cPkgOKb (fst s) (snd s) = true /\
+  let s2 := fst (cstep FIXED (fst (cstep FIXED s o1)) o2) in cPkgOKb (fst s2) (snd s2) = false.
+Proof. exists f42_state, (OImport RDF (CB 9) EMPTYMT), (OSave (TBuf 7) PZip false). split; vm_compute; reflexivity. Qed.
